@@ -1120,7 +1120,12 @@ fn block_or_stmt_to_asg_type(val: oq3_syntax::BlockOrStmt, context: &mut Context
     match val {
         oq3_syntax::BlockOrStmt::BlockExpr(body) => block_expr_to_asg_type(body, context),
         oq3_syntax::BlockOrStmt::Stmt(stmt) => {
-            asg::Block::new(vec![stmt_to_asg_stmt(stmt, context).unwrap()])
+            // Some statements (annotations, a nested `include`, a version string) are not
+            // translated to an ASG statement. The body is then empty.
+            match stmt_to_asg_stmt(stmt, context) {
+                Some(stmt) => asg::Block::new(vec![stmt]),
+                None => asg::Block::new(Vec::new()),
+            }
         }
     }
 }
